@@ -121,7 +121,7 @@ def c_render(fmt, v):
 
 def gen_instance_case(rng):
     uns = sorted(rng.sample([1, 2, 3, 5, 22, 100], rng.randint(1, 3)))
-    text, info = gen_inputs.multi_sim_input(rng, user_numbers=uns, rich=rng.random() < 0.4)
+    text, info = gen_inputs.multi_sim_input(rng, user_numbers=uns, rich=rng.random() < 0.4, with_file=True)
     extra_un = rng.choice([7, 8, 0])
     sel = {}
     for n in uns + [extra_un]:
